@@ -5,7 +5,12 @@
 // Vectors (from TLC, from replay files and from the random driver alike):
 //
 //	{"t":"dict","n":8,"cells":[{b,x,r}..],"roots":[0],"keys":["0101..",..],"exp":[{found,v}..]?,"modes":[..]?}
-//	{"t":"walk","cells":[..],"roots":[0],"ops":[{"op":"ref","i":0},{"op":"up"},{"op":"prune"}],"modes":[..]?}
+//	{"t":"walk","cells":[..],"roots":[0],"script":[{"k":"Cursor","c":1},{"k":"Ref","c":1,"i":0},{"k":"Up","c":1},
+//	   {"k":"Prune","c":1},{"k":"Create","c":1},{"k":"Cursor","c":2},..],"exphash":[hex per Create]?,"modes":[..]?}
+//
+// Every vector is executed on ONE MerkleProver per build mode: all keys of a dictionary vector are asked from the same
+// prover in the given order, all cursor sessions of a script are opened on the same prover (sessions may interleave).
+// The recording is one trace segment per prover: Reset (= NewMerkleProver), then one event per request / cursor call.
 //
 // modes: how the tree handed to the prover is made from the table
 //
@@ -33,9 +38,12 @@ import (
 	"verifharness/internal/ev"
 )
 
-type Op struct {
-	Op string `json:"op"`
-	I  int    `json:"i"`
+// Step is one call of a cursor script: Cursor (open session C on the prover), Ref I / Up / Prune (on session C),
+// Create (CreateProof with the current cursor of session C).
+type Step struct {
+	K string `json:"k"`
+	C int    `json:"c"`
+	I int    `json:"i"`
 }
 
 type Exp struct {
@@ -44,18 +52,18 @@ type Exp struct {
 }
 
 type Vector struct {
-	T     string    `json:"t"`
-	Vec   int       `json:"vec"`
-	Src   string    `json:"src"`
-	N     int       `json:"n"`
-	Cells []cells.C `json:"cells"`
-	Roots []int     `json:"roots"`
-	Keys  []string  `json:"keys"`
-	Exp   []Exp     `json:"exp"`
-	// ExpHash: hash of the proof the generator expects under the occurrence reading of Prune (passed through)
-	ExpHash string `json:"exphash"`
-	Ops   []Op      `json:"ops"`
-	Modes []string  `json:"modes"`
+	T      string    `json:"t"`
+	Vec    int       `json:"vec"`
+	Src    string    `json:"src"`
+	N      int       `json:"n"`
+	Cells  []cells.C `json:"cells"`
+	Roots  []int     `json:"roots"`
+	Keys   []string  `json:"keys"`
+	Exp    []Exp     `json:"exp"`
+	Script []Step    `json:"script"`
+	// ExpHash: per Create, the hash of the proof the generator expects under the occurrence reading of Prune (passed through)
+	ExpHash []string `json:"exphash"`
+	Modes   []string `json:"modes"`
 }
 
 var DictModes = []string{"tree", "dag", "boc"}
@@ -119,26 +127,26 @@ func safely(f func() error) (p string, err error) {
 
 var emptyTable = ev.M{"cells": []int{}, "roots": []int{}}
 
-// proveKeys asks the real code for a proof of every key and emits one Dict event.
-func proveKeys(w *ev.Writer, root *boc.Cell, n int, keys []string, src, mode string, vec int, exp []Exp) {
+func reset(w *ev.Writer, root *boc.Cell, kind, src, mode string, vec, n int) {
 	t := cells.Project([]*boc.Cell{root})
+	w.Emit(ev.M{"k": "Reset", "kind": kind, "src": src, "mode": mode, "vec": vec, "n": n, "cells": t.Cells, "roots": t.Roots})
+}
+
+// proveKeys asks ONE prover for a proof of every key, in order; one segment: Reset, then a Key event per request.
+func proveKeys(w *ev.Writer, root *boc.Cell, n int, keys []string, src, mode string, vec int, exp []Exp) {
+	reset(w, root, "dict", src, mode, vec, n)
 	var prover *boc.MerkleProver
 	p, err := safely(func() error {
 		var e error
 		prover, e = boc.NewMerkleProver(root)
 		return e
 	})
-	qs := make([]ev.M, 0, len(keys))
-	for _, k := range keys {
-		q := ev.M{"key": k, "err": "", "panic": "", "val": emptyTable, "proof": ""}
-		if p != "" || err != nil {
-			q["panic"], q["err"] = p, "e"
-			if err != nil {
-				q["msg"] = "NewMerkleProver: " + err.Error()
-			}
-			qs = append(qs, q)
-			continue
-		}
+	if p != "" || err != nil {
+		w.Emit(ev.M{"k": "Panic", "op": "NewMerkleProver", "panic": p, "msg": fmt.Sprint(err)})
+		return
+	}
+	for i, k := range keys {
+		q := ev.M{"k": "Key", "key": k, "err": "", "panic": "", "val": emptyTable, "proof": ""}
 		kb := boc.NewBitString(len(k))
 		for _, ch := range k {
 			_ = kb.WriteBit(ch == '1')
@@ -162,51 +170,69 @@ func proveKeys(w *ev.Writer, root *boc.Cell, n int, keys []string, src, mode str
 			q["val"] = ev.M{"cells": vt.Cells, "roots": vt.Roots}
 			q["proof"] = hex.EncodeToString(proof)
 		}
-		qs = append(qs, q)
+		if len(exp) == len(keys) {
+			q["exp"] = exp[i]
+		}
+		w.Emit(q)
 	}
-	m := ev.M{"k": "Dict", "src": src, "mode": mode, "vec": vec, "n": n, "cells": t.Cells, "roots": t.Roots, "q": qs}
-	if len(exp) == len(keys) && len(exp) > 0 {
-		m["exp"] = exp
-	}
-	w.Emit(m)
 }
 
-// walk replays cursor operations and emits one Walk event.
-func walk(w *ev.Writer, root *boc.Cell, ops []Op, src, mode string, vec int, expHash string) {
-	t := cells.Project([]*boc.Cell{root})
-	var proof []byte
+// runScript replays cursor calls on ONE prover; one segment: Reset, then one event per call.
+func runScript(w *ev.Writer, root *boc.Cell, script []Step, expHash []string, src, mode string, vec int) {
+	reset(w, root, "walk", src, mode, vec, 0)
+	var prover *boc.MerkleProver
 	p, err := safely(func() error {
-		prover, e := boc.NewMerkleProver(root)
-		if e != nil {
-			return e
-		}
-		stack := []*boc.Cursor{prover.Cursor()}
-		for _, o := range ops {
-			top := stack[len(stack)-1]
-			switch o.Op {
-			case "ref":
-				stack = append(stack, top.Ref(o.I))
-			case "up":
-				stack = stack[:len(stack)-1]
-			case "prune":
-				top.Prune()
-			default:
-				panic("c18: unknown op " + o.Op)
-			}
-		}
-		proof, e = prover.CreateProof(stack[len(stack)-1])
+		var e error
+		prover, e = boc.NewMerkleProver(root)
 		return e
 	})
-	m := ev.M{"k": "Walk", "src": src, "mode": mode, "vec": vec, "cells": t.Cells, "roots": t.Roots, "ops": ops, "err": "", "panic": p, "proof": ""}
-	if err != nil {
-		m["err"], m["msg"] = "e", err.Error()
-	} else if p == "" {
-		m["proof"] = hex.EncodeToString(proof)
+	if p != "" || err != nil {
+		w.Emit(ev.M{"k": "Panic", "op": "NewMerkleProver", "panic": p, "msg": fmt.Sprint(err)})
+		return
 	}
-	if expHash != "" {
-		m["exphash"] = expHash
+	sessions := map[int][]*boc.Cursor{}
+	creates := 0
+	for _, st := range script {
+		m := ev.M{"k": st.K, "c": st.C}
+		var proof []byte
+		p, err := safely(func() error {
+			stack := sessions[st.C]
+			switch st.K {
+			case "Cursor":
+				sessions[st.C] = []*boc.Cursor{prover.Cursor()}
+			case "Ref":
+				m["i"] = st.I
+				sessions[st.C] = append(stack, stack[len(stack)-1].Ref(st.I))
+			case "Up":
+				sessions[st.C] = stack[:len(stack)-1]
+			case "Prune":
+				stack[len(stack)-1].Prune()
+			case "Create":
+				var e error
+				proof, e = prover.CreateProof(stack[len(stack)-1])
+				return e
+			default:
+				panic("c18: unknown step " + st.K)
+			}
+			return nil
+		})
+		if st.K == "Create" {
+			m["err"], m["panic"], m["proof"] = "", p, ""
+			if err != nil {
+				m["err"], m["msg"] = "e", err.Error()
+			} else if p == "" {
+				m["proof"] = hex.EncodeToString(proof)
+			}
+			if creates < len(expHash) {
+				m["exphash"] = expHash[creates]
+			}
+			creates++
+		} else if p != "" || err != nil {
+			w.Emit(ev.M{"k": "Panic", "op": st.K, "panic": p, "msg": fmt.Sprint(err)})
+			return
+		}
+		w.Emit(m)
 	}
-	w.Emit(m)
 }
 
 func run(w *ev.Writer, v *Vector) error {
@@ -216,9 +242,6 @@ func run(w *ev.Writer, v *Vector) error {
 		if v.T == "walk" {
 			modes = WalkModes
 		}
-	}
-	if v.Ops == nil {
-		v.Ops = []Op{}
 	}
 	for i := range v.Cells {
 		if v.Cells[i].R == nil {
@@ -235,7 +258,7 @@ func run(w *ev.Writer, v *Vector) error {
 		case "dict":
 			proveKeys(w, root, v.N, v.Keys, v.Src, mode, v.Vec, v.Exp)
 		case "walk":
-			walk(w, root, v.Ops, v.Src, mode, v.Vec, v.ExpHash)
+			runScript(w, root, v.Script, v.ExpHash, v.Src, mode, v.Vec)
 		default:
 			return fmt.Errorf("vector %d: unknown kind %q", v.Vec, v.T)
 		}
@@ -629,6 +652,8 @@ func Drive(w *ev.Writer, o Opts) {
 			np, na = 12, 6
 		}
 		keys := sampleKeys(rng, items, n, np, na)
+		// the same prover is asked again for keys it has already proven, after other proofs
+		keys = append(keys, keys[0], keys[rng.Intn(len(keys))])
 		src := fmt.Sprintf("rand:shape%d", shape)
 		if lib {
 			// written by the library's encoder, in memory; then the same dictionary parsed from a bag
@@ -704,32 +729,58 @@ func Drive(w *ev.Writer, o Opts) {
 				break
 			}
 		}
-		// random walk with the cursor
-		var ops []Op
-		path := []int{0} // rows
-		steps := 1 + rng.Intn(3*len(tab.Cells)+2)
-		pp := 0.15 + rng.Float64()*0.3
-		for s := 0; s < steps; s++ {
-			cur := tab.Cells[path[len(path)-1]]
-			x := rng.Float64()
-			switch {
-			case x < pp:
-				ops = append(ops, Op{Op: "prune"})
-			case x < pp+0.2 && len(path) > 1:
-				ops = append(ops, Op{Op: "up"})
-				path = path[:len(path)-1]
-			case len(cur.R) > 0:
-				j := rng.Intn(len(cur.R))
-				ops = append(ops, Op{Op: "ref", I: j})
-				path = append(path, cur.R[j])
-			case len(path) > 1:
-				ops = append(ops, Op{Op: "up"})
-				path = path[:len(path)-1]
-			default:
-				ops = append(ops, Op{Op: "prune"})
+		// one prover serves several cursor sessions: sequential ones, sometimes two interleaved; one session that prunes
+		// nothing always comes after a session that pruned
+		session := func(c int, empty bool) []Step {
+			out := []Step{{K: "Cursor", C: c}}
+			if !empty {
+				path := []int{tab.Roots[0]}
+				steps := 1 + rng.Intn(2*len(tab.Cells)+2)
+				pp := 0.15 + rng.Float64()*0.3
+				for s := 0; s < steps; s++ {
+					cur := tab.Cells[path[len(path)-1]]
+					x := rng.Float64()
+					switch {
+					case x < pp:
+						out = append(out, Step{K: "Prune", C: c})
+					case x < pp+0.2 && len(path) > 1:
+						out = append(out, Step{K: "Up", C: c})
+						path = path[:len(path)-1]
+					case len(cur.R) > 0:
+						j := rng.Intn(len(cur.R))
+						out = append(out, Step{K: "Ref", C: c, I: j})
+						path = append(path, cur.R[j])
+					case len(path) > 1:
+						out = append(out, Step{K: "Up", C: c})
+						path = path[:len(path)-1]
+					default:
+						out = append(out, Step{K: "Prune", C: c})
+					}
+				}
 			}
+			return append(out, Step{K: "Create", C: c})
 		}
-		v := &Vector{T: "walk", Vec: vec, Src: "rand", Cells: tab.Cells, Roots: tab.Roots, Ops: ops}
+		var script []Step
+		nreq := 2 + rng.Intn(3)
+		emptyAt := 1 + rng.Intn(nreq-1)
+		for c := 1; c <= nreq; c++ {
+			a := session(c, c-1 == emptyAt)
+			if c < nreq && c-1 != emptyAt && c != emptyAt && rng.Intn(3) == 0 {
+				// interleave with the next session
+				c++
+				b := session(c, false)
+				for len(a) > 0 || len(b) > 0 {
+					if len(b) == 0 || (len(a) > 0 && rng.Intn(2) == 0) {
+						script, a = append(script, a[0]), a[1:]
+					} else {
+						script, b = append(script, b[0]), b[1:]
+					}
+				}
+				continue
+			}
+			script = append(script, a...)
+		}
+		v := &Vector{T: "walk", Vec: vec, Src: "rand", Cells: tab.Cells, Roots: tab.Roots, Script: script}
 		if err := run(w, v); err != nil {
 			panic(err)
 		}
